@@ -19,6 +19,7 @@ import GoNeat.Driver.GenRand
 import GoNeat.Driver.ExperimentEpoch
 import GoNeat.Driver.GenStats
 import GoNeat.Driver.Champion
+import GoNeat.Driver.ExpTime
 
 namespace GoNeat.Driver
 def allOps : List (String × Handler) :=
@@ -42,4 +43,5 @@ def allOps : List (String × Handler) :=
   ++ experimentEpochOps
   ++ genStatsOps
   ++ championOps
+  ++ expTimeOps
 end GoNeat.Driver
